@@ -145,6 +145,13 @@ def gen_c19(tier, rng):
                 if tier == "quick" and n >= 255 and (i1 % 25 and i2 % 25) and abs(i1 - i2) > 1:
                     continue
                 cases.append(f"pairidx x={hexs(x)} i1={i1} i2={i2}")
+    # finders built from a pair report the pair they were given (portable, sse2, avx2; neon/simd128 in the emulated pass)
+    for n in [2, 3, 17, 255, 256, 300]:
+        x = bytes([(i * 7) % 256 for i in range(n)])
+        for (i1, i2) in [(0, 1), (1, 0), (n - 1, 0), (0, n - 1), (min(n - 1, 254), min(n - 2, 253)), (min(n - 1, 255), 0), (1, 1), (n, 0)]:
+            if 0 <= i1 <= 255 and 0 <= i2 <= 255:
+                for isa in ("portable", "sse2", "avx2"):
+                    cases.append(f"pppair isa={isa} x={hexs(x)} i1={i1} i2={i2}")
     return cases
 
 def oracle_c19(op, kv, res, trace, flags):
@@ -164,6 +171,11 @@ def oracle_c19(op, kv, res, trace, flags):
         ok = i1 != i2 and i1 < len(x) and i2 < len(x)
         want = f"Some({i1},{i2})" if ok else "None"
         return None if res == want else f"Pair::with_indices(len {len(x)}, {i1}, {i2}) returned {res}, expected {want}"
+    if op == "pppair":
+        i1, i2 = int(kv["i1"]), int(kv["i2"])
+        ok = i1 != i2 and i1 < len(x) and i2 < len(x)
+        want = f"Some({i1},{i2})" if ok else "NoPair"
+        return None if res == want else f"{kv.get('isa')} packedpair::Finder::with_pair(.., ({i1},{i2})).pair() reported {res}, expected {want}"
     return None
 
 def nontrivial_c19(op, kv):
@@ -274,6 +286,22 @@ def gen_memchr(op, tier, rng, backends=BACKENDS_X86):
             for _ in range(max(1, n // dens)):
                 h[rng.randrange(n)] = rng.choice(ns)
         cases.append(f"{op} be={be}{cpu} ns={hexs(bytes(ns))} a={rng.randrange(4096)} h={hexs(bytes(h))}")
+    # raw-pointer forms (find_raw / rfind_raw / count_raw of the One/Two/Three searchers): sub-ranges [so, eo) of a
+    # buffer with matches planted just outside the range, empty ranges and start > end (must be None / 0)
+    raw_be = [b for b in backends if ":" not in b and b != "top"]
+    for j, n in enumerate([0, 1, 2, 15, 16, 17, 31, 32, 33, 40, 63, 64, 65, 100, 130] * (1 if quick else 6)):
+        ar = 1 if op == "count" else 1 + (j % 3)
+        ns = NEEDLE_SETS[ar][j % len(NEEDLE_SETS[ar])]
+        for (so, eo) in sorted(set([(0, n), (1, n), (0, max(0, n - 1)), (min(3, n), max(0, n - 2)), (n // 2, n // 2), (n, n),
+                                    (min(n, 5), min(n, 4)), (n, 0), (min(n, 17), n)])):
+            if so > n or eo > n:
+                continue
+            h = bytearray([0x78]) * n
+            for q in (so - 1, eo, so, eo - 1, (so + eo) // 2):
+                if 0 <= q < n and rng.random() < 0.6:
+                    h[q] = ns[q % len(ns)]
+            be = raw_be[(j + so + eo) % len(raw_be)]
+            cases.append(f"{op} be={be} raw=1 so={so} eo={eo} ns={hexs(bytes(ns))} a={rng.randrange(64)} h={hexs(bytes(h))}")
     # bit-trick neighbours: fillers that differ from a needle in one bit / by one (borrow and carry chains of the
     # SWAR zero-byte test, sign bits of the vector compares), few or no real matches, every short length
     lens2 = list(range(0, 41)) + [47, 48, 63, 64, 65, 100, 129]
@@ -297,6 +325,9 @@ def gen_memchr(op, tier, rng, backends=BACKENDS_X86):
 def oracle_memchr(op, kv, res, trace, flags):
     ns = bytes.fromhex(kv["ns"]); h = bytes.fromhex(kv.get("h", ""))
     idx = [i for i, b in enumerate(h) if b in ns]
+    if kv.get("raw") == "1":      # raw-pointer form: only [so, eo) may be searched (or even read)
+        so, eo = int(kv["so"]), int(kv["eo"])
+        idx = [i for i in idx if so <= i < eo]
     if op == "find":
         want = f"Some({idx[0]})" if idx else "None"
     elif op == "rfind":
